@@ -55,6 +55,13 @@ class Persist(Profile):
             if not prefix_inclusion(pre, old):
                 c.state["unmet"] = c.state.get("unmet", 0) + 1
                 continue
+            errs = (rec["save_error"], rec["load_error"], rec["resave_error"])
+            if any(isinstance(e, (RecursionError, MemoryError)) for e in errs) and pre.height(old) >= 100:
+                # the codec is recursive; a tree hundreds of levels deep exhausts the interpreter's
+                # stack (each node costs several levels of JSON nesting).  Not a statement about
+                # the codec's fidelity: counted, not judged.
+                c.state["too_deep"] = c.state.get("too_deep", 0) + 1
+                continue
             if rec["save_error"] is not None:
                 return Violation("C06", "E1", "restart:%s:save-raised:%s" % (mode, type(rec["save_error"]).__name__),
                                  "serialising document h%d raised %s" % (old, short(rec["save_error"])))
@@ -128,6 +135,7 @@ class Persist(Profile):
             bump(P, "restart_multi_doc")
         P["restart_docs_compared"] = P.get("restart_docs_compared", 0) + st.pop("compared", 0)
         P["precondition_unmet_docs"] = P.get("precondition_unmet_docs", 0) + st.pop("unmet", 0)
+        P["docs_too_deep_for_the_interpreter_stack"] = P.get("docs_too_deep_for_the_interpreter_stack", 0) + st.pop("too_deep", 0)
         pre = c.pre
         flags = set()
         for rec in recs:
